@@ -30,19 +30,22 @@ RULE = (
     "The repository's own example inputs (input/*.ods read independently of RP2's parser, every method and the config's schedule, -n) are part of the workload"
 )
 ASSUMPTIONS = [
-    "sent = outgoing amount + crypto fee (exchange-supplied crypto_out_with_fee, when given, equals their sum in this workload)",
+    "sent = outgoing amount + crypto fee, whatever an exchange-supplied crypto_out_with_fee says (one profile supplies rounded totals; the lots follow that cell, so the reconciliation with the lots is only asserted where the two agree)",
     "to-dates are only used where own-date order and instant order agree across the cut (KF1 region excluded)",
     "with -n the lots must still cover the disposals (otherwise the run fails: C02), so -n mutants overdraw one account while another holds the coins",
 ]
 SETTINGS: Dict[str, Dict[str, Any]] = {
-    "quick": {"cases": 2000, "cli_cases": 48, "budget_s": 45, "minimums": {"corpus_runs": 100, "to_date_runs_with_negative_balances_allowed": 500, "accounts_checked": 8000, "nontrivial": 800, "negative_runs": 100, "cli_runs": 5, "histories_with_transfers_repeating_a_unique_id": 60}},
-    "thorough": {"cases": 80000, "cli_cases": 150, "budget_s": 300, "minimums": {"corpus_runs": 100, "accounts_checked": 300000, "nontrivial": 30000, "negative_runs": 4000, "cli_runs": 100, "histories_with_transfers_repeating_a_unique_id": 4000}},
+    "quick": {"cases": 2000, "cli_cases": 48, "budget_s": 45, "minimums": {"corpus_runs": 100, "to_date_runs_with_negative_balances_allowed": 500, "accounts_checked": 8000, "nontrivial": 800, "negative_runs": 100, "cli_runs": 5, "histories_with_transfers_repeating_a_unique_id": 60, "runs_with_an_exchange_supplied_total_that_differs_from_amount_plus_fee": 150}},
+    "thorough": {"cases": 80000, "cli_cases": 150, "budget_s": 300, "minimums": {"corpus_runs": 100, "accounts_checked": 300000, "nontrivial": 30000, "negative_runs": 4000, "cli_runs": 100, "histories_with_transfers_repeating_a_unique_id": 4000, "runs_with_an_exchange_supplied_total_that_differs_from_amount_plus_fee": 6000}},
 }
 PROFILES = [
     Profile(n_exchanges=2, n_holders=2, p_intra=0.35, p_self_transfer=0.1, max_events=20, min_events=5),
     Profile(n_exchanges=4, n_holders=1, p_intra=0.4, max_events=22, min_events=5),
     Profile(n_exchanges=3, n_holders=2, p_intra=0.3, tie_prob=0.4, mixed_tz=True, max_events=20, min_events=5),
     Profile(n_exchanges=2, n_holders=2, p_intra=0.3, amount_style="dec11", max_events=26, min_events=8),
+    # exchange-supplied totals (crypto_out_with_fee), half of them the exchange's own rounded figure: what leaves the account is
+    # amount + fee whatever that cell says (the lots follow the cell, so the reconciliation clause is skipped for these)
+    Profile(n_exchanges=3, n_holders=1, p_intra=0.25, p_optional_fiat=0.8, p_rounded_out_total=0.5, out_types=("SELL", "FEE", "FEE", "GIFT"), max_events=18, min_events=6),
 ]
 
 
@@ -87,7 +90,10 @@ def _observe(ctx: Any, ip: Any, hist: Dict[str, Any], sched: Dict[int, str], to_
     unconsumed = lots_total - sum(consumed.values(), Fraction(0))
     finals = sum((b[5] for b in observed), Fraction(0))
     # (with a from-date the run's own trace hides the earlier fractions: the equations above still apply, this clause needs all fractions)
-    if from_d is None and finals != unconsumed:
+    stale_totals = any(r["t"] == "OUT" and r.get("cout_wf") and Fraction(r["cout_wf"]) != Fraction(r["cout"]) + Fraction(r["cfee"]) for r in hist["rows"])
+    if stale_totals:
+        ctx.count("runs_with_an_exchange_supplied_total_that_differs_from_amount_plus_fee")
+    if from_d is None and not stale_totals and finals != unconsumed:
         violations.append({"rule": "balance.reconciliation-with-lots", "detail": {"sum_final_balances": str(finals), "unconsumed_in_lots": str(unconsumed)}})
     ctx.count("reconciliations")
     ctx.tag("tag_shape", f"from={'y' if from_d else 'n'},to={'y' if to_d else 'n'},n={'y' if allow_negative else 'n'}")
